@@ -12,6 +12,7 @@ import (
 	"bufio"
 	"fmt"
 	"io"
+	"os"
 	"os/exec"
 	"strconv"
 	"strings"
@@ -177,6 +178,8 @@ func (s *Solver) flushPreCtx() {
 	}
 }
 
+var dumpN int
+
 type SatResult int
 
 const (
@@ -318,6 +321,12 @@ func (s *Solver) CheckWithModel(extra *Term, onSat func(get func([]*Term) []uint
 	}
 	if one != nil {
 		one.close()
+	}
+	if res == Unknown {
+		if dir := os.Getenv("GOSMT_DUMP_UNKNOWN"); dir != "" {
+			dumpN++
+			os.WriteFile(fmt.Sprintf("%s/unknown_%d_%d.smt2", dir, os.Getpid(), dumpN), []byte(s.ctxText.String()+"(assert "+r+")\n(check-sat)\n"), 0o644)
+		}
 	}
 	s.main.send("(pop 1)\n")
 	for _, k := range s.p.journal {
